@@ -57,7 +57,9 @@ def entries(facts):
 def closure_bodies(ctx):
     cg = CallGraph(ctx.facts)
     ents = entries(ctx.facts)
-    reach = cg.closure(ents, stop=STOP)
+    # the RAM-bundle module is C20's (feature-gated, own entry points); the conservative edges of generic trait calls
+    # (`I: Iterator` -> every Iterator impl of the crate) must not pull it into this closure
+    reach = cg.closure(ents, stop=tuple(STOP) + tuple(p for p in cg.bodies if "ram_bundle::" in p))
     bodies = [cg.bodies[p] for p in sorted(reach) if not cg.bodies[p].derived and "_::" not in p]
     return cg, ents, bodies
 
